@@ -135,7 +135,7 @@ def run_engine(hname, entry, params=None, flags=None, out=None, workers=None, qu
         out = os.path.join(VERIF, "out", "%s.%s.json" % (hname, entry))
     cmd += ["-out", out]
     t0 = time.time()
-    p = subprocess.run(cmd, capture_output=True, text=True, env=go_env())
+    p = subprocess.run(cmd, capture_output=True, text=True, errors="replace", env=go_env())
     if not quiet:
         sys.stderr.write(p.stderr)
     if p.returncode != 0:
